@@ -288,6 +288,31 @@ def run(ctx, which="C02"):
                             if bool(tst[r, c]) != (not gmin[r, c] * s <= D <= gmax[r, c] * s):
                                 ctx.violation("interval_test", f"cv_masked: sample {D}/{s} is {'masked' if tst[r, c] else 'kept'} "
                                               f"at a pixel whose interval is [{int(gmin[r, c])}, {int(gmax[r, c])}]", case)
+                # the same statement on per-pixel bounds that are multiples of 1/4 pixel (float grids), against the
+                # generated test read in the unit 1/(4 s) pixel (C02_gen_interval_test_quarter_pixel)
+                rr, cc = np.indices(gmin.shape)
+                gq = (4 * gmin.astype(int) + (3 * rr + cc) % 4).astype(int)
+                hq = np.maximum(4 * gmax.astype(int) - (rr + 2 * cc) % 4, gq).astype(int)
+                gminq, gmaxq = (gq / 4.0).astype(np.float32), (hq / 4.0).astype(np.float32)
+                lgq = pu.image_dataset(left["im"].data, disp=None, grids=(gminq, gmaxq))
+                cvq = mc.allocate_cost_volume(lgq, (gminq, gmaxq), {"pipeline": {"matching_cost": {
+                    "matching_cost_method": "sad", "window_size": 1, "subpix": s}}})
+                for k, d in enumerate(cvq.coords["disp"].data):
+                    D = int(round(float(d) * s))
+                    tst = np.asarray(eval(ro["test"], {"np": np, "cost_volume": cvq, "disp_min": gminq, "disp_max": gmaxq,  # pylint: disable=eval-used
+                                                       ro["k"]: k}))
+                    nstat += 1
+                    for r in range(rows):
+                        for c in range(nx):
+                            case = {"kind": "statements", "function": "cv_masked_out_of_range", "subpix": s, "nx_left": nx,
+                                    "gmin_quarters": int(gq[r, c]), "gmax_quarters": int(hq[r, c]), "D": D, "sample": k,
+                                    "pixel": [r, c]}
+                            jobs.append((4, [(gq * s).tolist(), (hq * s).tolist(), 1, r, c, 4 * D]))
+                            impl.append((case, 1 if bool(tst[r, c]) else 0))
+                            if bool(tst[r, c]) != (not gq[r, c] * s <= 4 * D <= hq[r, c] * s):
+                                ctx.violation("interval_test_quarter_pixel_bounds",
+                                              f"cv_masked: sample {D}/{s} is {'masked' if tst[r, c] else 'kept'} at a pixel "
+                                              f"whose interval is [{gq[r, c] / 4}, {hq[r, c] / 4}]", case)
     sampled = False
     for (case, got), m in zip(impl, model.batch(jobs)):
         ctx.count("gen_statement_iterations")
